@@ -43,7 +43,7 @@ for name in sorted(n for n in rows if n.startswith('revert-')):
     hashes = name[len('revert-'):].split('+')
     subj = ' + '.join(subprocess.run(['git', '-C', '/repo', 'log', '--format=%s', '-1', h], capture_output=True, text=True).stdout.strip().replace('fix: ', '') for h in hashes)
     hits = rows[name]
-    det = '; '.join(f"{h[0]} `{clean(h[1])}`" for h in hits) if hits else '**not reported by the quick tier**'
+    det = '; '.join(f"{h[0]}{' (Polars tier)' if h[2] != 'quick' else ''} `{clean(h[1])}`" for h in hits) if hits else '**not reported by the quick tier**'
     if not hits: rmiss.append(name)
     rev_lines.append(f"| {' + '.join(hashes)} | {subj} | {det} |")
 n_rev = len(rev_lines) - 2
